@@ -19,6 +19,7 @@ def run(ctx):
                      "and that the hex writer and reader agree on width and nibble order over the same eight words. Does not decide collision properties.")
     R.rule("C27-R4", "one byte-mixing loop: every entry point hashes its bytes through the same (pointer, length) core", floor=2)
     R.rule("C27-R1", "no *, +, -, << on a signed integer type with non-constant operands in the hashing functions", floor=2)
+    R.rule("C27-R5", "hashing and the hex codec keep no mutable static state (a hash string is a function of the hash alone, also under concurrent use)", floor=6)
     R.rule("C27-R2", "getString recomputed from getFullString on every path; 16-character prefix", floor=3)
     R.rule("C27-R3", "hex codec: 2 chars per byte, high nibble first, same 8 words", floor=6)
 
@@ -98,6 +99,13 @@ def run(ctx):
     R.ob("C27-R3", ok, "occa::hash_t", "words: int h[8]", "include/occa/utils/hash.hpp", "hash words are %s" % (hf[0]["t"] if hf else "?"), nontrivial=False)
     init = [n for n in fs_.walk() if write_target(n) is not None and render(strip(write_target(n)), False).endswith(".initialized")]
     R.ob("C27-R3", bool(init), fs_.q, "fromString: marks initialized", "%s:%d" % (fs_.relfile, fs_.d["line"]), "a parsed hash is initialized")
+
+    # ---- R5 --------------------------------------------------------------------------
+    path_fns = [th, fh] + [f for f in prog.funcs.values() if f.d.get("tmpl") != "inst" and (f.q.startswith("occa::hash_t::") or f.q == "occa::hash" or f.q in ("occa::hashFile",))]
+    for f in path_fns:
+        st = [v for v in f.walk() if v["k"] == "VarDecl" and v.get("static") and not f.type(v).strip().startswith("const ")]
+        R.ob("C27-R5", not st, f.q + " " + f.d.get("sig", "")[:30], "no mutable static local", f.site(st[0]) if st else "%s:%d" % (f.relfile, f.d["line"]),
+             "stateless" if not st else "static local `%s` is shared by all callers: two threads formatting their own hashes overwrite each other's characters (a data race; the string no longer names the hash)" % st[0]["n"], nontrivial=False)
 
     # ---- R4: equal bytes must give equal hashes whichever overload receives them -------------------------------------------------------------
     def writes_state(f, depth=0):
